@@ -18,8 +18,8 @@
      masked, a permanent / non-retryable error surfaces at once, max+1 transients raise after exactly
      max+1 attempts, a returned value or raised error is always the operation's own last outcome. *)
 From Coq Require Import List Bool Ascii String Arith ZArith QArith Lia.
-Require Import DS.Model.Str DS.Gen.GenS3 DS.Model.Backend DS.Model.Range DS.Model.Retry.
-Require Import DS.Proofs.BackendProofs DS.Proofs.RangeProofs DS.Proofs.RetryProofs.
+Require Import DS.Model.Str DS.Gen.GenS3 DS.Model.Backend DS.Model.Range DS.Model.Retry DS.Model.Paged.
+Require Import DS.Proofs.BackendProofs DS.Proofs.RangeProofs DS.Proofs.RetryProofs DS.Proofs.PagedProofs.
 Import ListNotations.
 Open Scope nat_scope.
 
@@ -124,6 +124,24 @@ Theorem C20_s3_retry_exhaust : forall (V : Type) (es : list exn) (e : exn) (rest
 Proof. exact @s3_retry_exhaust. Qed.
 Print Assumptions C20_s3_retry_exhaust.
 
+(* ------------------------------------------------------------------ faults inside a paginated listing
+   list_files = with_s3_retry around the WHOLE listing (fresh result list and paginator per attempt).
+   For EVERY page structure, EVERY fault plan over the requests of all attempts (a fault may hit the
+   first page or any later page of any attempt) with only transient faults, at most `budget` of them:
+   the result is exactly the fault-free listing -- no page lost, none duplicated. *)
+Theorem C20_paged_listing_masks : forall (A : Type) (budget : nat) (pages : list (list A)) (pl : list (option fault)),
+  all_transient pl -> nfaults pl <= budget ->
+  fst (paged_list budget pages pl) = Returned (List.concat pages).
+Proof. exact @paged_masks. Qed.
+Print Assumptions C20_paged_listing_masks.
+
+(* a permanent error on the request for page i surfaces with that very request (i+1 requests in all) *)
+Theorem C20_paged_listing_permanent : forall (A : Type) (budget : nat) (pages : list (list A)) (i : nat) (rest : list (option fault)),
+  i < List.length pages ->
+  paged_list budget pages (repeat None i ++ Some FPermanent :: rest) = (Raised FPermanent, S i).
+Proof. exact @paged_permanent. Qed.
+Print Assumptions C20_paged_listing_permanent.
+
 (* ------------------------------------------------------------------ non-vacuity *)
 (* A table under prefix "wh/t1/" in a bucket that also holds a sibling table "wh/t10" and a stray
    object "wh/t1" : sibling-prefix keys data/x, data2/x, database, metadata/..., a delete, and listings
@@ -169,3 +187,14 @@ Example C20_nonvacuous_retry :
      = (Returned 7%Z, 6)
   /\ with_s3_retry (V := Z) [inr OSErr; inr (ClientError (lit "AccessDenied")); inl 7%Z] = (Raised (ClientError (lit "AccessDenied")), 2).
 Proof. repeat split; try (vm_compute; reflexivity). repeat constructor. Qed.
+
+(* three pages; the second page fails on the first attempt, the third page on the second attempt:
+   the listing is still [1;2;3;4;5], after 2 + 3 + 3 requests *)
+Example C20_nonvacuous_paged :
+  all_transient [None; Some FTransient; None; None; Some FTransient]
+  /\ nfaults [None; Some FTransient; None; None; Some FTransient] <= gen_max_retries
+  /\ paged_list gen_max_retries [[1; 2]; [3; 4]; [5]]%Z [None; Some FTransient; None; None; Some FTransient]
+     = (Returned [1; 2; 3; 4; 5]%Z, 8).
+Proof.
+  split; [intros f [H|[H|[H|[H|[H|[]]]]]]; congruence|]. split; vm_compute; [lia|reflexivity].
+Qed.
